@@ -9,6 +9,7 @@
    byte classes with the ones tabulated from net/url on this run. *)
 From Verif Require Import Base.Prelude.
 From Verif Require Import CA.Model.
+From Verif Require Import CA.UrlProofs.
 Open Scope string_scope.
 Open Scope N_scope.
 
@@ -23,6 +24,7 @@ Record leaf := Leaf {
 }.
 
 Record sign_case := SignCase {
+  sc_entry : option string;     (* None: AuthorizeAndSignCertificate; Some n: the auto-config path for node n *)
   sc_dc : string; sc_cluster : string;
   sc_serial : option N; sc_builtin : N;
   sc_svc : list (string * bool); sc_node : list (string * bool); sc_mesh : bool; sc_acl : bool;
@@ -35,6 +37,7 @@ Definition serr_code (e : serr) : N :=
   | EUriCount => 1 | EEmail => 2
   | EParse PScheme => 3 | EParse PUnescape => 4 | EParse PFormat => 5
   | EUnsupported => 6 | EDenied => 7 | EDatacenter => 8 | ETrustDomain => 9
+  | ENotAgent => 10 | EWrongNode => 11
   end.
 
 Definition url_eqb (a b : url) : bool :=
@@ -44,7 +47,11 @@ Definition url_eqb (a b : url) : bool :=
 Definition run_sign (c : sign_case) : res N leaf :=
   let az := Authz (tab_lookup (sc_svc c)) (tab_lookup (sc_node c)) (sc_mesh c) (sc_acl c) in
   let s := Store [] 0 None [] (sc_builtin c) (sc_serial c) in
-  match sign_request (CaEnv (sc_dc c) (sc_cluster c)) az (sc_csr c) s with
+  let e := CaEnv (sc_dc c) (sc_cluster c) in
+  match (match sc_entry c with
+         | None => sign_request e az (sc_csr c) s
+         | Some n => autoconfig_sign e n (sc_csr c) s
+         end) with
   | Err e => Err (serr_code e)
   | Ok (crt, _) => Ok (Leaf (leaf_uris crt) (c_dns crt) (c_ips crt) (c_is_ca crt) (c_serial crt))
   end.
@@ -54,7 +61,10 @@ Definition leaf_eqb (a b : leaf) : bool :=
   && list_eqb String.eqb (l_ips a) (l_ips b) && Bool.eqb (l_is_ca a) (l_is_ca b)
   && (l_serial a =? l_serial b).
 
+(* every URL crypto/x509 hands over must be in the form url.Parse guarantees ([url_wf], the
+   hypothesis of C12_no_confusion) *)
 Definition check_sign (c : sign_case) : bool :=
+  forallb url_wfb (csr_uris (sc_csr c)) &&
   match run_sign c, sc_expect c with
   | Ok a, Ok b => leaf_eqb a b
   | Err a, Err b => a =? b
@@ -125,9 +135,10 @@ Fixpoint bytes_from (n : nat) (k : N) : list ascii :=
 Definition all_bytes : list ascii := bytes_from 256 0.
 
 (* [esc]: does EscapedPath escape this byte;  [hx]: value of the byte as a hex digit, 16 = not one *)
-Definition tab_ok (esc : list bool) (hx : list N) : bool :=
+Definition tab_ok (esc : list bool) (hx : list N) (valid : list bool) : bool :=
   list_eqb Bool.eqb (map should_escape_path all_bytes) esc
-  && list_eqb N.eqb (map (fun c => match unhex c with Some v => v | None => 16 end) all_bytes) hx.
+  && list_eqb N.eqb (map (fun c => match unhex c with Some v => v | None => 16 end) all_bytes) hx
+  && list_eqb Bool.eqb (map valid_enc_char all_bytes) valid.
 
-Definition tab_mismatch (esc : list bool) (hx : list N) : list N :=
-  if tab_ok esc hx then [] else [4294967295].
+Definition tab_mismatch (esc : list bool) (hx : list N) (valid : list bool) : list N :=
+  if tab_ok esc hx valid then [] else [4294967295].
